@@ -1,0 +1,33 @@
+//go:build verif
+
+package disk
+
+// Accessors for the verification harness under /verif (build tag "verif"):
+// the file-name functions of the disk cache, for direct differential testing.
+
+import "github.com/buchgr/bazel-remote/v2/cache"
+
+func verifKeysDiskCache(c Cache) *diskCache {
+	switch x := c.(type) {
+	case *diskCache:
+		return x
+	case *metricsDecorator:
+		return x.diskCache
+	}
+	panic("unexpected Cache implementation")
+}
+
+// VerifFileLocation exposes (*diskCache).FileLocation.
+func VerifFileLocation(c Cache, kind cache.EntryKind, legacy bool, hash string, size int64, random string) string {
+	return verifKeysDiskCache(c).FileLocation(kind, legacy, hash, size, random)
+}
+
+// VerifFileLocationBase exposes (*diskCache).FileLocationBase.
+func VerifFileLocationBase(c Cache, kind cache.EntryKind, legacy bool, hash string, size int64) string {
+	return verifKeysDiskCache(c).FileLocationBase(kind, legacy, hash, size)
+}
+
+// VerifElementPath exposes (*diskCache).getElementPath (the result includes the cache directory).
+func VerifElementPath(c Cache, key string, legacy bool, size int64, random string) string {
+	return verifKeysDiskCache(c).getElementPath(key, lruItem{size: size, legacy: legacy, random: random})
+}
